@@ -460,7 +460,7 @@ func c18NumericHist(c *fw.Ctx, l at.List, vals []any, class int, depth int, rr u
 			tolAvg := new(big.Rat).Quo(tolSum, nn)
 			absAvg := new(big.Rat).Abs(exactAvg)
 			tolAvg.Add(tolAvg, new(big.Rat).Mul(absAvg, twoM52)) // rounding of the division
-			tolAvg.Add(tolAvg, halfSubnormalUlp)                    // ... which is absolute, not relative, at the bottom of the range
+			tolAvg.Add(tolAvg, halfSubnormalUlp)                 // ... which is absolute, not relative, at the bottom of the range
 			if !within(avg, exactAvg, tolAvg) {
 				ea, _ := exactAvg.Float64()
 				c.Violate("aggregate-wrong:Avg", in(), fmt.Sprint(ea), fmt.Sprint(avg))
